@@ -276,12 +276,15 @@ class HmmStep(_Native):
 # linear Gaussian
 
 
-def lg_inputs(self):
+def lg_inputs(self, int_prior=False):
     eng = engine()
     self.T, self.ds, self.do = (fresh(n, z3.IntSort()) for n in ("T", "d_state", "d_obs"))
     eng.assume(z3.And(self.T >= 1, self.ds >= 1, self.do >= 1))
     self.y = Tensor.fresh("y", (self.T, self.do))
-    self.m0, self.P0 = Tensor.fresh("m0", (self.ds,)), Tensor.fresh("P0", (self.ds, self.ds))
+    # an INTEGER-typed prior (e.g. m0 = jnp.zeros(d, int), P0 = jnp.eye(d, dtype=int)) is a legal input: the filtered
+    # moments are still real numbers (nothing may be stored at the prior's dtype)
+    srt = z3.IntSort() if int_prior else None
+    self.m0, self.P0 = Tensor.fresh("m0", (self.ds,), srt), Tensor.fresh("P0", (self.ds, self.ds), srt)
     self.A, self.Q = Tensor.fresh("A", (self.ds, self.ds)), Tensor.fresh("Q", (self.ds, self.ds))
     self.C, self.R = Tensor.fresh("C", (self.do, self.ds)), Tensor.fresh("R", (self.do, self.do))
 
@@ -307,12 +310,12 @@ class KalmanFilter(_Native):
     """first step updates the PRIOR (m0, P0) with y_0; step t: predict m- = A m, P- = A P A^T + Q, then the same
     update with y_t; log marginal = sum_t log N(innovation_t; 0, S_t); shapes for d_obs != d_state"""
 
-    cases = ["T>=1"]
+    cases = ["T>=1", "T>=1:integer_typed_prior"]
     native = "kalman"
 
     def call(self, case):
         reset()
-        lg_inputs(self)
+        lg_inputs(self, int_prior="integer_typed_prior" in case)
         return self.real(self.fn, self.y, self.m0, self.P0, self.A, self.Q, self.C, self.R)
 
     def ensures(self, case, path):
